@@ -30,7 +30,10 @@ let hdrs_of = list_tok ';' hdr_of
 (* block := header|version|uncles *)
 let block_of s : block =
   match String.split_on_char '|' s with
-  | [h; v; us] -> { bl_header = hdr_of h; bl_version = z_of_string v; bl_uncles = hdrs_of us }
+  | [h; v; us] -> let u = hdrs_of us in
+    { bl_header = hdr_of h; bl_version = z_of_string v; bl_uncles = u; bl_uncles_stamped = List.map (fun x -> x.h_hash) u }
+  | [h; v; us; st] -> { bl_header = hdr_of h; bl_version = z_of_string v; bl_uncles = hdrs_of us;
+                        bl_uncles_stamped = list_tok ';' bytes_of_hex st }
   | _ -> failwith "block"
 let blocks_of = list_tok '/' block_of
 
@@ -109,6 +112,8 @@ let handle (toks : string list) : string =
      | Some (i, r) -> string_of_int (int_of_nat i) ^ " " ^ res_unit r)
   | ["uncles"; c; now; chain; blocks; b] ->
     res_unit (verify_uncles (cfg_of c) (hdrs_of chain) (blocks_of blocks) (z_of_string now) (block_of b))
+  | ["uncles-as-stamped"; c; now; chain; blocks; b] ->
+    res_unit (verify_uncles_v AsStamped (cfg_of c) (hdrs_of chain) (blocks_of blocks) (z_of_string now) (block_of b))
   | ["rlpnn"; sh] -> hex_of_bytes (rlp_no_nonce (sh_of sh))
   | ["rlpfull"; sh] -> hex_of_bytes (rlp_full (sh_of sh))
   | ["hnn"; sh; o] -> let o = oracle_of o in hex_of_bytes (hash_no_nonce keccak256 (argon o "B") (sh_of sh))
